@@ -118,4 +118,15 @@ example : (step exH (run exH {} exK5a) (.query 1)).2 =
 example : (step exH (run exH {} (exK5a.take 5)) (.query 1)).2 ≠ (step exH (run exH {} exK5a) (.query 1)).2 := by
   decide +kernel
 
+/-- K5b: `m3` (name 2) calls `a_m1` (name 5), an alias of `m1` (name 0); `m1 = a_m1 = <function of another package>`; queries;
+    then `a_m1 = m2` (name 1): the watched symbol notices the re-binding -/
+def exK5b : List Ev :=
+  [.defMemento 0 none 10 [], .defMemento 1 none 11 [], .alias 5 0, .defMemento 2 none 12 [5], .query 2,
+   .defForeign 0 77, .alias 5 0, .query 2, .alias 5 1]
+
+example : (step exH (run exH {} exK5b) (.query 2)).2 =
+    some (effectiveVersion exH (progOf (run exH {} exK5b).sym) id 2) := by decide +kernel
+example : (step exH (run exH {} (exK5b.take 8)) (.query 2)).2 ≠ (step exH (run exH {} exK5b) (.query 2)).2 := by
+  decide +kernel
+
 end Memento.VersionCache
